@@ -31,7 +31,10 @@ ADDED = (' Added in later rounds: instance attributes re-tuned between calls (se
          'pattern list object reused and edited in place, strings compiled by pexpect itself (clause: searched exactly the patterns '
          'asked for, with DOTALL and with IGNORECASE iff the instance says so), case-variant streams under ignorecase incl. letters '
          'whose case folding is wider than str.lower() (long s, Kelvin sign, final sigma), unusual byte values (NUL, 0xff, bare CR), '
-         'EINTR on the n-th wait, processes with > 1024 descriptors (use_poll=True runs), kernel-truth decode clause in unicode mode.')
+         'EINTR on the n-th wait, processes with > 1024 descriptors (use_poll=True runs), kernel-truth decode clause in unicode mode, '
+         'compiled patterns with re.VERBOSE, a second unrelated object alive next to the one under test (used between its calls, or '
+         'driven by a second caller thread with the same pattern list and a pre-emption point after every search), and (0.2 %) a '
+         '70-110 K character session handed back line by line.')
 for _k in RULES:
     RULES[_k] += ADDED
 
